@@ -1390,6 +1390,52 @@ def create_group_check(c, G, q, h):
                 'ecCreateGroup [%s, cfg %s]: %s' % (spec_str(c.spec), c.cfg, '; '.join(bad)))
     return None
 
+def std_group_validators(c, G, q, h, ref, binary):
+    """ecpSeemsValidGroup / ec2SeemsValidGroup on a standard curve: the headers define the predicate exactly --
+    ecIsOperableGroup, base on the curve, |order * cofactor - (N0 + 1)| <= 2 sqrt(N0) with N0 = p resp. 2^m (compared as squares) -- so the
+    order is replaced by q + delta for deltas on both sides of the Hasse boundary, at the boundary itself and far beyond it.
+    -> (violation tuple or None, calls)"""
+    L, n, W, no = c.L, c.n, c.W, c.no
+    pre = 'ec2' if binary else 'ecp'
+    N0 = (1 << (ref['poly'][0] if isinstance(ref['poly'], (list, tuple)) else ref['poly'].bit_length() - 1)) if binary else ref['p']
+    def hasse(order):
+        return (order * h - N0 - 1) ** 2 <= 4 * N0
+    import math
+    r = math.isqrt(4 * N0)
+    # largest / smallest admissible order (exact boundary), then classes beyond it
+    hi = (N0 + 1 + r) // h; lo = -((-(N0 + 1 - r)) // h)
+    cand = {q: 'true order', hi: 'upper Hasse boundary', hi + 1: 'upper boundary + 1', lo: 'lower Hasse boundary', lo - 1: 'lower boundary - 1'}
+    for e in (1, 2, 8, 16, 32, 64):
+        cand.setdefault(hi + (1 << e), 'upper boundary + 2^%d' % e); cand.setdefault(lo - (1 << e), 'lower boundary - 2^%d' % e)
+    hb = N0.bit_length()
+    for e in (hb // 2 + 2, hb // 2 + 8, hb // 2 + 24, (3 * hb) // 4, hb - 16, hb - 2):
+        cand.setdefault(q + (1 << e), 'q + 2^%d' % e)
+        if q - (1 << e) > 0:
+            cand.setdefault(q - (1 << e), 'q - 2^%d' % e)
+    bad = []; calls = 0
+    with vf.Arena(L) as T:
+        cst = gbuf(T, L.sz('ecCreateGroup_deep', c.fdeep))
+        st = gbuf(T, L.sz(pre + 'SeemsValidGroup_deep', n, c.fdeep))
+        xb, yb = T.buf(G[0].to_bytes(no, 'little')), T.buf(G[1].to_bytes(no, 'little'))
+        def setgroup(order):
+            ol = max(1, (order.bit_length() + 7) // 8)
+            return L.boolean('ecCreateGroup', c.ec, xb, yb, T.buf(order.to_bytes(ol, 'little')), ol, h, cst)
+        for order, label in sorted(cand.items()):
+            if order <= 0 or order.bit_length() > 8 * (n + 1) * W or not setgroup(order):
+                continue
+            got = L.boolean(pre + 'SeemsValidGroup', c.ec, st); calls += 2
+            exp = int(hasse(order))
+            if got != exp:
+                bad.append('%s (order = q %+d): returned %d, the documented predicate gives %d' % (label, order - q, got, exp))
+        if gbad(st):
+            bad.append('wrote past %sSeemsValidGroup_deep octets of the stack' % pre)
+        setgroup(q)
+    if bad:
+        return ('%sSeemsValidGroup:hasse' % pre, {'cfg': c.cfg, 'kind': 'std_group', 'spec': list(c.spec), 'G': list(G), 'q': hex(q), 'h': h, 'binary': binary,
+                                                   'N0': hex(N0)},
+                '%sSeemsValidGroup [%s, cfg %s]: %s' % (pre, spec_str(c.spec), c.cfg, '; '.join(bad[:4]))), calls
+    return None, calls
+
 def std_cell(case):
     """one standard curve, all configurations (the reference results are shared between them)"""
     fam, name, tier = case['fam'], case['name'], case['tier']
@@ -1420,6 +1466,7 @@ def std_cell(case):
         W, n = c.W, c.n
         nq = (q.bit_length() + 8 * W - 1) // (8 * W)
         addv(create_group_check(c, G, q, h)); calls += 5
+        v, k = std_group_validators(c, G, q, h, ref, binary); addv(v); calls += k
         # (a) function table on all ordered pairs of the boundary set
         In = [None] + pts
         n0 = calls
@@ -1843,6 +1890,13 @@ def replay(rec):
     if k == 'group_create':
         c = get_ctx(rec['cfg'], tspec(rec['spec']))
         v = create_group_check(c, tuple(rec['G']), int(rec['q'], 16), rec['h'])
+        return v[2] if v else None
+    if k == 'std_group':
+        c = get_ctx(rec['cfg'], tspec(rec['spec']))
+        binary = rec['binary']
+        N0 = int(rec['N0'], 16)
+        ref = {'poly': (N0.bit_length() - 1,)} if binary else {'p': N0}
+        v, _ = std_group_validators(c, tuple(rec['G']), int(rec['q'], 16), rec['h'], ref, binary)
         return v[2] if v else None
     if k == 'params':
         L = common.lib(rec['cfg'])
